@@ -14,8 +14,8 @@ REPO = os.environ.get('VERIF_REPO', '/repo')
 MODULE = 'github.com/gardenbed/emerge'
 GOSYM = os.path.join(VERIF, 'bin', 'gosym')
 HARNESS = os.path.join(VERIF, 'harness')
-EVIDENCE = os.path.join(VERIF, 'evidence')
-REPLAYS = os.path.join(VERIF, 'replays')
+EVIDENCE = os.environ.get('VERIF_EVIDENCE_DIR') or os.path.join(VERIF, 'evidence')
+REPLAYS = os.environ.get('VERIF_REPLAYS_DIR') or os.path.join(VERIF, 'replays')
 sys.path.insert(0, os.path.join(VERIF, 'ref'))
 sys.path.insert(0, os.path.join(VERIF, 'lib'))
 
